@@ -2,7 +2,9 @@ import Drv.Util
 import Model.KVExec
 
 /-! Driver for the `kvexec` stream (C15): two executor instances.  `a` (the reference) only executes
-blocks; `b` additionally receives finalize / inject / gettxs / init / reopen / reexec / get. -/
+blocks; `b` additionally receives finalize / inject / gettxs / init / reopen / reexec / get.
+A `final` line also shows the recorded height (`GetStoreValue("/finalizedHeight")`), which is a reserved
+entry: stored, never part of the root. -/
 namespace Drv.C15
 open KVExec
 
@@ -50,7 +52,8 @@ def step (d : D) (line : String) : D × String :=
       if h ≥ 2 ^ 64 then (d, "bad-op") else
       let (b', e) := setFinal d.b h
       let d' := { d with b := b' }
-      (d', (match e with | none => "ok" | some e => showErr e) ++ " " ++ rootB d')
+      let fin := match getStoreValue d'.b finalKey with | some v => hx v | none => "none"
+      (d', (match e with | none => "ok" | some e => showErr e) ++ s!" fin={fin} " ++ rootB d')
   | "inject" =>
     match (match o.get? "n" with | none => some 1 | some t => t.toNat?) with
     | none => (d, "bad-op")
